@@ -12,7 +12,7 @@ RULE = (
     "Label maps over the labels of 1-4 named groups (random partition of a subset of 1..6; kinds plain / merge / "
     "single-instance; names with '-', '_', space, '.', upper case) in 1-3-D x input types (signed dtypes too for semantic "
     "input) x matcher {threshold, many-to-one, merge} x optional decision metric; plus a variant in which every voxel not "
-    "belonging to one target group is rewritten arbitrarily, and a variant holding one label of no group (in the "
+    "belonging to one target group is rewritten arbitrarily, and a variant holding one label of no group - a positive one or, for signed dtypes, a negative one - (in the "
     "prediction or in the reference). Oracle: (a) differential - each group's result equals the result of a group-less "
     "evaluator of the same configuration on the arrays restricted by the harness's own masking (binarised for merge "
     "groups; a single-instance group under semantic/unmatched input evaluated as MATCHED_INSTANCE with decision "
@@ -59,10 +59,13 @@ def case_strategy(draw):
     dtypes = ["uint8", "uint16", "uint32"] + (["int8", "int32", "int64"] if it == "SEMANTIC" else [])
     und = None
     free = [l for l in range(1, 10) if l not in defined]
+    dtype = draw(st.sampled_from(dtypes))
+    if np.dtype(dtype).kind == "i":
+        free = free + [-1, -3]  # a negative value is a non-zero label of no group, too
     if free and draw(st.booleans()):
         und = {"label": draw(st.sampled_from(free)), "side": draw(st.sampled_from(["pred", "ref"])), "pos": [draw(st.integers(0, s - 1)) for s in ref.shape]}
     return {
-        "pred": pred.tolist(), "ref": ref.tolist(), "dtype": draw(st.sampled_from(dtypes)), "input": it,
+        "pred": pred.tolist(), "ref": ref.tolist(), "dtype": dtype, "input": it,
         "backend": draw(st.sampled_from([None, "cc3d", "scipy"])) if it == "SEMANTIC" else None,
         "matcher": None if it == "MATCHED_INSTANCE" else {"kind": "merge" if kind == "merge" else "naive", "metric": mm, "thr": draw(st.sampled_from([0.0, 0.25, 0.5, 0.75])), "m2o": kind == "naive_m2o"},
         "decision": dec, "groups": groups, "target": draw(st.integers(0, len(groups) - 1)),
